@@ -607,6 +607,49 @@ func valueBased(e registry.Entry, b []byte) genOutcome {
 	})
 }
 
+// reusedReceivers decodes b by both paths into receivers that already hold an earlier message
+// (first, decoded into each of them the same way): a variable reused for consecutive messages.
+func reusedReceivers(e registry.Entry, first, b []byte) (vb, st genOutcome, ok bool) {
+	prep := func() (registry.Generated, bool) {
+		x := e.New()
+		o := guardGen(func() genOutcome {
+			r, _ := simio.NewReader(first, simio.Plan{TruncAt: -1, ErrAt: -1})
+			sr := tbinary.Default.Reader(r)
+			defer sr.Close()
+			if err := x.Decode(sr); err != nil {
+				return genOutcome{err: err.Error()}
+			}
+			return genOutcome{ok: true}
+		})
+		return x, o.ok
+	}
+	x1, ok1 := prep()
+	x2, ok2 := prep()
+	if !ok1 || !ok2 {
+		return vb, st, false
+	}
+	vb = guardGen(func() genOutcome {
+		w, err := tbinary.Default.Decode(bytes.NewReader(b), wire.TStruct)
+		if err != nil {
+			return genOutcome{err: "decode: " + err.Error()}
+		}
+		if err := x1.FromWire(w); err != nil {
+			return genOutcome{err: err.Error()}
+		}
+		return describe(x1)
+	})
+	st = guardGen(func() genOutcome {
+		r, _ := simio.NewReader(b, simio.Plan{TruncAt: -1, ErrAt: -1})
+		sr := tbinary.Default.Reader(r)
+		defer sr.Close()
+		if err := x2.Decode(sr); err != nil {
+			return genOutcome{err: err.Error()}
+		}
+		return describe(x2)
+	})
+	return vb, st, true
+}
+
 func streaming(e registry.Entry, b []byte, plan simio.Plan) genOutcome {
 	return guardGen(func() genOutcome {
 		r, raw := simio.NewReader(b, plan)
@@ -838,6 +881,27 @@ func RunC04(cfg simrt.Config, o world.Opts) *world.Result {
 				return
 			}
 			vb, st = vb2, st2
+		}
+		if okv, vv, has := validValue(e); has && okv != nil && simrt.Flip("c04.reused-receiver", 0.15) {
+			// one variable for consecutive messages: both paths start from a receiver that
+			// holds an earlier (valid) message and must still agree
+			if simrt.Flip("c04.reused-first-evolved", 0.3) {
+				vv, _ = evolve(vv, 0)
+			}
+			if rvb, rst, ok := reusedReceivers(e, ref.Encode(nil, vv), b); ok {
+				res.Count("c04.decodes-into-a-reused-receiver", 1)
+				switch {
+				case rvb.panic != "" || rst.panic != "":
+					res.Failf("C04/panic", "%s: decoding %x into a receiver that holds an earlier message panicked: %s%s", e.Name, clip(b, 96), rvb.panic, rst.panic)
+					return
+				case rvb.ok && rst.ok && !sameGen(rvb, rst):
+					res.Failf("C04/values-differ", "%s on %x (%s), decoded into receivers that held an earlier message: value-based %s, streaming %s%s", e.Name, clip(b, 96), desc, rvb, rst, goDiff(rvb, rst))
+					return
+				case rvb.ok && !rst.ok:
+					res.Failf("C04/stream-rejects", "%s on %x (%s), decoded into receivers that held an earlier message: value-based path accepts (%s) but streaming rejects: %s", e.Name, clip(b, 96), desc, rvb, rst)
+					return
+				}
+			}
 		}
 		switch {
 		case vb.ok && st.ok:
